@@ -9,10 +9,14 @@ GROUPS = [
 ]
 RD = [(1, "read_bin", "rbin", 1, []), (2, "read_ti_txt", "rti", 2, []), (3, "read_wdc", "rwdc", 2, [("read_int24", "fileio/read_wdc.cpp", "real callee")]),
       (4, "read_hex", "rhex", 6, [("get_hex", "fileio/read_hex.cpp", "loop-contract")]), (5, "read_srec", "rsrec", 5, [("get_hex", "fileio/read_srec.cpp", "loop-contract"), ("ignore_line", "fileio/read_srec.cpp", "loop-contract")]),
-      (6, "read_uf2", "ruf2", 2, [("read_block", "fileio/read_uf2.cpp", "real callee"), ("FileIo::get_int32_le", "fileio/FileIo.cpp", "real callee")])]
+      (6, "read_uf2", "ruf2", 2, [("read_block", "fileio/read_uf2.cpp", "real callee"), ("FileIo::get_int32_le", "fileio/FileIo.cpp", "real callee")]),
+      (7, "read_elf", "relf", 4, [("read_shdr_32", "fileio/read_elf.cpp", "real callee"), ("read_shdr_64", "fileio/read_elf.cpp", "real callee"), ("FileIo::get_string_at_offset", "fileio/FileIo.cpp", "replaced by its contract at the call sites (body discharged by C17/get_string_at_offset[bounded])")]),
+      (8, "read_amiga", "ramiga", 4, [("read_hunk_header", "fileio/read_amiga.cpp", "loop-contracts"), ("read_code", "fileio/read_amiga.cpp", "loop-contract"), ("read_int32", "fileio/read_amiga.cpp", "real callee")]),
+      (9, "read_macho", "rmacho", 4, [("macho_read_section", "fileio/read_macho.cpp", "real callee"), ("macho_read_segment_load", "fileio/read_macho.cpp", "real callee"), ("macho_read_symbol", "fileio/read_macho.cpp", "real callee"), ("FileIo::get_string_at_offset", "fileio/FileIo.cpp", "replaced by its contract at the call sites")])]
+
 for num, fn, js, nl, extra in RD:
     GROUPS.append(Group(name="C17/%s" % fn, unity="C17/u_readers.cpp", entry="h_reader", functions=[(fn, "fileio/%s.cpp" % fn, "harness+%d loop-contracts, unbounded file" % nl)] + extra,
-                        defines=["READER=%d" % num], loops="C17/%s.loops.json" % js, expected_loops=nl, unwind=14, checks=CH, timeout=900))
+                        defines=["READER=%d" % num], loops="C17/%s.loops.json" % js, expected_loops=nl, unwind=14, checks=CH, timeout=1500))
 for w in (1, 2, 4):
     GROUPS.append(Group(name="C17/write%d.bad_address[bounded]" % (8 * w), unity="C19/u_util.cpp", entry="h_write_bad", functions=[("UtilContext::write%d" % (8 * w), "core/UtilContext.cpp", "harness, bounded")],
                         defines=["WIDTH=%d" % w], unwind=11, checks=CH, timeout=600, bounded="commands '<two letters g..z> 1'"))
